@@ -67,7 +67,12 @@ def parse_reuse(path, settings):
     from tally.parsers import parse_generic_csv
     src = resolve_source_format(dict(settings))
     spec = src['_format_spec']
-    before = repr(sorted((k, repr(v)) for k, v in vars(spec).items()))
+    import re as _re
+
+    def _state():
+        # object addresses are not part of the state (and differ from process to process)
+        return _re.sub(r'0x[0-9a-fA-F]+', '0x?', repr(sorted((k, repr(v)) for k, v in vars(spec).items())))
+    before = _state()
     reads = []
     for nm in ('First Reader', 'Second Reader'):
         try:
@@ -78,7 +83,7 @@ def parse_reuse(path, settings):
         reads.append({'txns': [{'description': t['raw_description'], 'date': t['date'].strftime('%Y-%m-%d'),
                                 'amount': t['amount'] if math.isfinite(t['amount']) else repr(t['amount']), 'source': t['source'],
                                 'field': t.get('field')} for t in txns]})
-    after = repr(sorted((k, repr(v)) for k, v in vars(spec).items()))
+    after = _state()
     return {'reads': reads, 'spec_unchanged': before == after, 'spec_before': before[:400], 'spec_after': after[:400]}
 
 
